@@ -248,6 +248,7 @@ class SimThread:
         self._joiners = []
         self.index = None
         self.ident = None
+        self.wake_at = None
 
     # threading.Thread API ---------------------------------------------------
     def start(self):
@@ -326,8 +327,10 @@ class SimThread:
         self.reads = 0
         if wake_time is not None:
             sim.schedule(wake_time, self._waker(self.token))
+        self.wake_at = wake_time          # (for harnesses that align an event with a thread's next timed wake-up)
         sim.sched_sem.release()
         self.go.acquire()
+        self.wake_at = None
         if self._pending_exc is not None:
             e, self._pending_exc = self._pending_exc, None
             raise e
